@@ -107,6 +107,12 @@ CHECKS.update({
             'and yield points inside the action bodies; who ran, with which arguments, in which order, when the call returned and which error '
             'was chained are all compared with the script.',
             'Members are fakes; interleavings at thread start/join and yield points in action bodies.'),
+    'C17': ('exploration', 'DESIGN.md 3/C17', 'dsched',
+            'Hypothesis-generated flight programs (all primitives, start_*/stop with virtual waits, exceptions, explicit land vs context) with generated schedules of the setpoint thread under virtual time; recorded packet stream decoded independently and compared with a kinematic model',
+            'Programs over every primitive of both helpers run in virtual time over the real commanders; the time-stamped packet stream is '
+            'checked for the final STOP (+NOTIFY) with nothing after it, setpoint period, height integral, commanded vectors, primitive '
+            'durations, modelled position and go-to targets.',
+            'Zero-length moves not generated; virtual time; packet layouts as checked by C08.'),
 })
 
 ALL = ['C%02d' % i for i in range(1, 21)]
